@@ -6,6 +6,7 @@ import z3
 from ..core import Adt, Lazy, Ref, Cell, SeqObj, MapObj, StrVal, Tup, TRAIL, undo, Unsupported
 from ..harness import hexs
 from . import numlib as nl
+from . import skel
 from ..models import Some, NONE
 
 NAMES = ["x", "y", "z"]
@@ -326,6 +327,70 @@ def spec_vector_set(chk, L, how):
                 with_handle(rr.fields[0])
 
 
+def spec_vector_set_object_identity(chk):
+    """storing an object that is EQUAL to, but distinct from, what the slot holds must still replace it: the slot then
+    designates the stored object (another vector with equal contents; an equal number)"""
+    ex = chk.executor(True)
+    ex.inline_clone_types = ("Value", "ValueReference")
+    nat = chk.ws.runner("dev")
+    unit = "builtin vector-set! / stored object identity"
+    chk.region_ns = {}
+    fset = ex.resolve("vector_set")
+    x = z3.Int("x")
+
+    def replay(vals):
+        prog = "(define a (vector %d)) (define b (vector %d)) (define box (vector a))\n(vector-set! box 0 b)\n(vector-set! b 0 99)\n(vector-ref (vector-ref box 0) 0)\n(vector-ref a 0)" % (vals["x"], vals["x"])
+        out = [o.strip() for o in nat.cmd("eval %s" % hexs(prog)).split(" ;; ")]
+        return out[-2:] != ["OK I 99", "OK I %d" % vals["x"]], "%s -> %s (expected 99 and %d)" % (prog, out[-2:], vals["x"])
+
+    a, seq_a = mk_vector(ex, "a", [x], 1, True)
+    b, seq_b = mk_vector(ex, "b", [x], 1, True)          # equal contents, distinct storage
+    box, seq_box = mk_vector(ex, "box", [z3.IntVal(0)], 1, True)
+    seq_box.items[0].v = a
+    ex.panic_hook = lambda info: chk.oblige(ex, unit, "no-panic", z3.BoolVal(False), {"x": x}, replay)
+    args = SeqObj("args", "values::Value<R>", [Cell(box), Cell(int_value(z3.IntVal(0))), Cell(b)], 3, 3)
+    for rv in ex.run(fset, [args]):
+        chk.path(unit)
+        ok = rv.variant == "Ok"
+        now = None
+        try:
+            now = seq_of_value(ex, ex.seq_item(seq_box, 0).v)
+        except Unsupported:
+            pass
+        chk.oblige(ex, unit, "after (vector-set! v k obj) slot k designates obj itself, also when obj is equal to the old content", z3.BoolVal(ok and now is seq_b), {"x": x}, replay)
+
+
+def spec_new_child(chk):
+    """LexicalScope::new / new_child: a root has no parent; a child's parent is exactly the given frame (whatever it holds), and it starts empty"""
+    nat = chk.ws.runner("dev")
+    for parent_kind in ("root-empty", "root-nonempty", "child-empty", "child-nonempty"):
+        ex = chk.executor(True)
+        unit = "LexicalScope::new_child"
+        chk.region_ns = {}
+        root = Ref(Cell(Adt("LexicalScope", None, [NONE, MapObj("r")]), "rootf"))
+        pm = MapObj("p")
+        if parent_kind.endswith("nonempty"):
+            pm.entries.append((StrVal("x"), z3.BoolVal(True), Cell(z3.IntVal(1))))
+        parent = Ref(Cell(Adt("LexicalScope", None, [NONE if parent_kind.startswith("root") else Some(root), pm]), "parentf"))
+        f = [x_ for n_, l in ex.fns.items() for x_ in l if n_.endswith(">::new_child") and "environment::" in n_][0]
+
+        def replay(vals, parent_kind=parent_kind):
+            # frames: 0 root, 1 parent (child of root or root), 2 = new child of 1 ; set x through the child and read it through the parent
+            if parent_kind.startswith("root"):
+                cmd = "scope 2 -1 0 %d %s set 1 %s 7" % (1, "0 %s 1" % hexs("x"), hexs("x"))
+            else:
+                cmd = "scope 3 -1 0 1 1 0 %s 1 define 1 %s 5" % (hexs("x"), hexs("x"))
+            out = nat.cmd(cmd)
+            return False, "structural (native: %s)" % out[:80]
+
+        for rv in ex.run(f, [parent]):
+            chk.path(unit)
+            good = isinstance(rv, Adt) and rv.ty == "LexicalScope" and isinstance(rv.fields[0], Adt) and rv.fields[0].variant == "Some" \
+                and isinstance(rv.fields[0].fields[0], Ref) and rv.fields[0].fields[0].cell is parent.cell and isinstance(rv.fields[1], MapObj) and not rv.fields[1].entries and rv.fields[1] is not pm
+            chk.oblige(ex, unit, "the new frame's parent is exactly the given frame (%s) and the new frame is empty" % parent_kind, z3.BoolVal(bool(good)), {},
+                       lambda vals: skel.scheme_shape_probe(nat, 0, False, 0, 1, 1))
+
+
 def zeq(a, b):
     return (a == b) if not isinstance(a, int) else (z3.IntVal(a) == b)
 
@@ -528,5 +593,8 @@ def run(chk):
     chk.step("vector-set! container", spec_vector_set, chk, L, "container")
     chk.step("vector-ref", spec_vector_ref, chk, L)
     chk.step("make-vector", spec_make_vector, chk, L)
+    chk.run_probes("procedure shapes", skel.shape_probe_selfcheck, chk.ws.runner("dev"), 6 * len(skel.SHAPES))
+    chk.step("stored object identity", spec_vector_set_object_identity, chk)
+    chk.step("new_child", spec_new_child, chk)
     from .c01_parts import spec_apply_scheme
     chk.step("fresh frame per call", spec_apply_scheme, chk, "", ("fresh",))
